@@ -38,26 +38,26 @@ type Fault struct {
 
 // Event is one logged operation.
 type Event struct {
-	T    time.Duration
-	Kind string
-	N    int // bytes or 0
-	Err  string
-	Hit  bool // this is the operation the fault was injected on
+	T        time.Duration
+	Kind     string
+	N        int // bytes or 0
+	Err      string
+	Hit      bool // this is the operation the fault was injected on
 	Deadline time.Time
 }
 
 // Conn is the instrumented connection.
 type Conn struct {
 	net.Conn
-	mu       sync.Mutex
-	start    time.Time
-	counts   map[string]int
-	events   []Event
-	fault    *Fault
-	fired    bool
-	firedAt  time.Duration
-	readDL   time.Time
-	closed   bool
+	mu        sync.Mutex
+	start     time.Time
+	counts    map[string]int
+	events    []Event
+	fault     *Fault
+	fired     bool
+	firedAt   time.Duration
+	readDL    time.Time
+	closed    bool
 	failedOps int
 	// BeforeWriteReturn, if set, is called after the bytes of a Write were
 	// handed to the underlying connection and before Write returns.
